@@ -349,6 +349,8 @@ class Type4Tag(nfc.tag.Tag):
                         return None
                     data += part
 
+                del data[nlen:]  # if more data was returned than requested
+
             except Type4TagCommandError:
                 return None
             else:
